@@ -10,11 +10,9 @@ GCC = "gcc -O2 -g -w -pthread"
 
 
 def sh(cmd, cwd=None, env=None, timeout=300):
-    try:
-        p = subprocess.run(cmd, shell=True, cwd=cwd, env=env, stdout=subprocess.PIPE, stderr=subprocess.PIPE, text=True, errors="replace", timeout=timeout)
-        return p.returncode, p.stdout, p.stderr
-    except subprocess.TimeoutExpired:
-        return None, "", "timeout"
+    # a timeout is retried once with 8x the time (loaded machine); rc None only if it did not finish either time
+    from . import driver
+    return driver.run_child(cmd, env=env, cwd=cwd, timeout=timeout, shell=True)
 
 
 ORCC_CONFIGS = [
@@ -116,6 +114,10 @@ def run_batch(rd, seed, batch, mode, nfun, configs, genexe, orcc, libdir, env, p
                 cnt("orcc_refused_by_compat")
                 refused = True
                 break
+            if rc is None:
+                ev.setdefault("tool_timeouts", []).append("orcc --%s %s" % (what, cfg))
+                refused = True
+                break
             if rc != 0:
                 V("orcc-failed|%s|%s" % (what, cfg), "orcc --%s %s failed (status %s): %s" % (what, opts, rc, (err + out)[-400:]), config=cfg)
                 refused = True
@@ -127,7 +129,9 @@ def run_batch(rd, seed, batch, mode, nfun, configs, genexe, orcc, libdir, env, p
         # (a) with liborc
         exe = os.path.join(rd, tag + ".bin")
         rc, out, err = sh("%s %s -DORC_ENABLE_UNSTABLE_API -I%s -I%s -I%s %s %s_drv.c -o %s %s/liborc.a -lm" % (GCC, extra, hdir, build.REPO, libdir, cfile, prefix, exe, libdir))
-        if rc != 0:
+        if rc is None:
+            ev.setdefault("tool_timeouts", []).append("gcc %s" % cfg)
+        elif rc != 0:
             V("gcc-rejects|%s|%s" % (cfg, gcc_error_key(err)), "gcc rejects orcc output (%s): %s" % (cfg, err[-600:]), config=cfg)
         else:
             cnt("compiled_with_orc")
@@ -137,7 +141,7 @@ def run_batch(rd, seed, batch, mode, nfun, configs, genexe, orcc, libdir, env, p
                     e2["ORC_CODE"] = runmode
                 rc, out, err = sh(exe, env=e2, cwd=rd, timeout=120)
                 if rc != 0:
-                    V("crash|%s|%s" % (cfg, runmode), "generated program died (status %s) in mode %s: %s" % (rc, runmode, err[-300:]), config=cfg, run=runmode)
+                    V("%s|%s|%s" % ("hang" if rc is None else "crash", cfg, runmode), "generated program %s in mode %s: %s" % ("did not finish" if rc is None else "died (status %s)" % rc, runmode, err[-300:]), config=cfg, run=runmode)
                     continue
                 cnt("program_runs")
                 check_output("%s/%s/%s" % (name, cfg, runmode), out, cfg, runmode)
@@ -145,7 +149,9 @@ def run_batch(rd, seed, batch, mode, nfun, configs, genexe, orcc, libdir, env, p
         if do_noorc and "inline" not in cfg and cfg != "init-function":
             exe2 = os.path.join(rd, tag + ".noorc.bin")
             rc, out, err = sh("%s -DDISABLE_ORC -I%s %s %s_drv.c -o %s -lm" % (GCC, hdir, cfile, prefix, exe2))
-            if rc != 0:
+            if rc is None:
+                ev.setdefault("tool_timeouts", []).append("gcc disable-orc %s" % cfg)
+            elif rc != 0:
                 V("gcc-rejects-disable-orc|%s|%s" % (cfg, gcc_error_key(err)), "gcc rejects orcc output with -DDISABLE_ORC (%s): %s" % (cfg, err[-600:]), config=cfg)
             else:
                 cnt("compiled_disable_orc")
